@@ -72,8 +72,22 @@ def split_tensor_rules(chk, repo, rid):
         n += 5
     # any other value raises
     raises = [s for s in ast.walk(fi.node) if isinstance(s, ast.Raise)]
+    # decided by following the function with an option value that is none of the three
+    ok_r, d_r = False, ''
+    try:
+        A = lg.param_tensor('A', 3, charges=[None, (1, 'qD[0]'), (-1, 'qD[1]')],
+                            composite={0: [('len(qd0)', (1, 'qd0')), ('len(qd1)', (1, 'qd1'))]})
+        it = LegInterp(fi, {'A': A}, consts={'svd_distr': '<any other value>'}, repo=repo)
+        out = it.run()
+        from ..legs_interp import Opaque as _Opaque
+        ok_r = isinstance(out, _Opaque) and out.text == 'raise'
+        d_r = '' if ok_r else 'the function returns for an option value that is not left / right / sqrt'
+    except LegError as ex:
+        if isinstance(ex, LegUnknown):
+            raise
+        d_r = str(ex)
     chk.ob(rid, where(repo, fi, raises[0] if raises else fi.node), 'split_mps_tensor: an unknown svd_distr raises',
-           len(raises) == 1, '', key=f'{rid}|raises')
+           ok_r and len(raises) >= 1, d_r, key=f'{rid}|raises')
     return n + 1
 
 
